@@ -88,8 +88,6 @@ class Judge:
                 raise Violation("learner-params", "learner %d: rho=%r is not rho_max^(2N/(2i+1)) for a power of two N and 0<=i<N" % (lg2.index, rho), t)
             if any(abs(rho - float(o.kwargs["rho"])) <= 1e-15 for o in logs[:lg2.index]):
                 raise Violation("learner-params", "learner %d repeats the rho of an earlier learner (%r)" % (lg2.index, rho), t)
-            if self.base == "T_HOO" and kw.get("rounds") != self.rounds:
-                raise Violation("learner-params", "T_HOO learner built with rounds=%r" % (kw.get("rounds"),), t)
             self.decoded.append(dec)
         # scores
         V, Tm = list(algo.V_reward), list(algo.Times)
